@@ -33,6 +33,25 @@ def design_level(out, tier):
         raise MachineryError('MCAverager_dev was expected to violate EveryAddCounted, got %s %s' % (res.violation, res.error))
     rej.append('Averager.add without its transaction block violates EveryAddCounted (lost update)')
     out.notes['design_deviations_rejected'] = rej
+    # unbounded safety of the token bucket: an inductive invariant discharged by Apalache (any number of ticks / calls)
+    import os, shutil, subprocess, tempfile
+    from .. import SPEC
+    apa = shutil.which('apalache-mc')
+    if apa:
+        d = tempfile.mkdtemp(prefix='apa-', dir='/dev/shm')
+        try:
+            results = []
+            for mod, init, inv, length, want in (('ThrottleInd.tla', 'Init', 'IndInv', 0, True), ('ThrottleInd.tla', 'IndInit', 'IndInv', 1, True),
+                                                 ('ThrottleInd.tla', 'IndInit', 'RateFromZero', 0, True), ('ThrottleIndNoCap.tla', 'IndInit', 'IndInv', 1, False)):
+                p = subprocess.run([apa, 'check', '--init=' + init, '--inv=' + inv, '--length=%d' % length, '--out-dir=' + d, mod],
+                                   cwd=os.path.join(SPEC, 'apalache'), stdout=subprocess.PIPE, stderr=subprocess.STDOUT, text=True, timeout=900)
+                ok = 'EXITCODE: OK' in p.stdout
+                if ok != want:
+                    raise MachineryError('Apalache %s %s/%s length %d: expected %s\n%s' % (mod, init, inv, length, 'OK' if want else 'a violation', p.stdout[-1200:]))
+                results.append('%s --init=%s --inv=%s --length=%d: %s' % (mod, init, inv, length, 'holds' if ok else 'violated (as it must be)'))
+            out.notes['apalache_inductive_invariant'] = results
+        finally:
+            shutil.rmtree(d, ignore_errors=True)
 
 
 def _avg_dfs(cfg, prog, bound, max_runs, seed):
